@@ -15,6 +15,8 @@ Decided:
  H4 feature-gated operations: block flush sends nothing unless FLUSH (9) was negotiated; console emergency write
     needs EMERG_WRITE (2), console size needs SIZE (0); GPU get_edid needs EDID (1); readonly() reports RO (5) of the
     negotiated set.
+ H1t transport side of the handshake: both 32-bit halves of the offered / accepted feature sets are read / written,
+    selector first, on MMIO legacy+modern and PCI (C10.M2 / C11.W3 traces).
  H5 net header form: the legacy-header flag is (not VERSION_1 and not MRG_RXBUF) of the negotiated set.
 """
 from .common import *
